@@ -9,11 +9,11 @@ HOOK_COMMITS = subprocess.run(
 CHECKS = {
  "C07": dict(engine="table", technique="stateful property-based testing (proptest op histories + invariant after every step)",
    text="Exploration: thousands of generated operation histories per run over the real KBucketsTable, all structural invariants and pending life-cycle transition rules evaluated after every elementary operation; failures shrink to a minimal op list. Finite sample of an infinite space: no proof.",
-   note="Trusted: the crate's non-mutating accessors used for observation; pending deadlines only in the regimes 0 / 1h+forced expiry (guarded hook). Keys are L^d with crafted d (all bucket classes incl. 0..3).",
+   note="Trusted: the crate's non-mutating accessors used for observation; pending deadlines only in the regimes 0 / 1h+forced expiry (guarded hook). Keys are L^d with crafted d (all bucket classes incl. 0..3). Thorough tier adds a coverage-guided libFuzzer campaign over byte-decoded op histories (same interpreter and invariants).",
    ref="7.2 / C07"),
  "C08": dict(engine="table", technique="property-based testing against a reference oracle (sorted full scan with independent XOR arithmetic)",
    text="Exploration: generated tables (incl. buckets 0..3 and pending nodes) and targets in every log2 class 0..256; every closest_* output compared element by element with the sorted scan, nodes_by_distances compared with the scan. Found the bucket-0 double visit on the pinned tree (fixed).",
-   note="Trusted: iter_ref as the full scan; harness's own 256-bit XOR/log2 arithmetic.",
+   note="Trusted: iter_ref as the full scan; harness's own 256-bit XOR/log2 arithmetic. Thorough tier adds a coverage-guided libFuzzer campaign over byte-decoded tables/targets.",
    ref="7.2 / C08"),
 }
 
@@ -24,11 +24,11 @@ CHECKS["C16"] = dict(engine="table", technique="stateful property-based testing 
 
 CHECKS["C09"] = dict(engine="query", technique="stateful property-based testing (event histories vs. an independent ledger; step-bounded drain as termination oracle)",
    text="Exploration: tens of thousands of generated event histories per run against the real FindNodeQuery / PredicateQuery (explicit clock) and the real QueryPool; ledger invariants for contacted-once, parallelism bound, no dead state, absorbing finish, bounded drain, pool returns each query exactly once. Liveness is decided in its bounded-safety form.",
-   note="Assumes a transport that gives every issued request exactly one outcome (C04); the stalled mode is read via a guarded accessor; QueryPool timeouts only in regimes 0 / 1h (it reads std::time::Instant).",
+   note="Assumes a transport that gives every issued request exactly one outcome (C04); the stalled mode is read via a guarded accessor; QueryPool timeouts only in regimes 0 / 1h (it reads std::time::Instant). Thorough tier adds a coverage-guided libFuzzer campaign over byte-decoded event histories (same ledger).",
    ref="7.3 / C09")
 CHECKS["C10"] = dict(engine="query", technique="property-based testing with a ledger oracle over event histories",
    text="Exploration: the same generated histories; the final result is checked for size, distinctness, strict distance order (harness arithmetic), every id contacted and successfully answered while outstanding, predicate provenance, and completeness when short.",
-   note="Candidate set defined as documented (first num_results of the supplied sequence + ids in accepted successes). Same transport assumption as C09.",
+   note="Candidate set defined as documented (first num_results of the supplied sequence + ids in accepted successes). Same transport assumption as C09. Thorough tier adds a coverage-guided libFuzzer campaign over byte-decoded event histories (same ledger).",
    ref="7.3 / C10")
 
 CHECKS["C18"] = dict(engine="filter", technique="differential property-based testing against an exact token-bucket reference + metamorphic prune relation + ledger assertions on the real Filter",
@@ -38,11 +38,11 @@ CHECKS["C18"] = dict(engine="filter", technique="differential property-based tes
 
 CHECKS["C05"] = dict(engine="codec", technique="property-based testing: round-trip law + differential against a reference codec written from the wire spec + mutation in the unmasked domain",
    text="Exploration: hundreds of thousands of generated packets per run: structured packets of all kinds and sizes (incl. exactly 1280 bytes and overflow) must encode byte-identically to an independent reference encoder and round-trip with the exact authenticated data; field-level mutations applied before masking and arbitrary byte strings are judged by a reference decoder with the statement's must-reject list; any panic is a violation.",
-   note="Trusted: aes/ctr crates, enr crate for record validity. Excluded and counted: IVs whose low 64 bits wrap inside one datagram (CTR counter width is not fixed by the spec), destination ids sharing 128 leading bits.",
+   note="Trusted: aes/ctr crates, enr crate for record validity. For IVs whose low 64 bits wrap inside one datagram only the comparison with the reference layout is excluded and counted (CTR counter width is not fixed by the spec); the crate's own round trip is still required for them. Thorough tier adds two coverage-guided libFuzzer campaigns (raw datagrams; datagrams assembled in the unmasked domain) with the same oracle inside the target.",
    ref="7.1 / C05")
 CHECKS["C06"] = dict(engine="codec", technique="property-based testing: round-trip law + differential against a reference RLP codec + RLP-structure mutation",
    text="Exploration: generated messages of all six kinds with boundary-biased fields and signed records must encode byte-identically to an independent RLP reference and round-trip (decode-encode idempotent); RLP-structure mutations and arbitrary bytes are judged by a reference decoder with the statement's must-reject list; any panic is a violation.",
-   note="Trusted: enr crate for record validity. Leniencies outside the statement's reject list are counted (tolerated_leniency), not reported.",
+   note="Trusted: enr crate for record validity. Leniencies outside the statement's reject list are counted (tolerated_leniency), not reported: a NODES record list whose own length disagrees with what follows is tolerated only when everything after the list header is a sequence of valid signed records. Thorough tier adds a coverage-guided libFuzzer campaign over raw message bytes with the same oracle inside the target.",
    ref="7.1 / C06")
 
 CHECKS["C13"] = dict(engine="wire", technique="stateful property-based testing over generated network/attacker schedules (real handlers on a virtual wire, paused clock), equation checked after every step",
@@ -144,10 +144,11 @@ def main():
             {"name": "wire", "path": "harness/src/engines/wire.rs, wire_interp.rs", "serves_properties": ["C01", "C02", "C03", "C04", "C13", "C15", "C19"], "kind_free_text": "real Handlers on an in-memory wire inside a paused single-threaded tokio runtime; proptest op schedules"},
             {"name": "svc", "path": "harness/src/engines/svc.rs", "serves_properties": ["C11", "C12", "C14", "C17", "C20"], "kind_free_text": "real Discv5/Service with a scripted handler (channels), paused clock; proptest scripts"},
             {"name": "table", "path": "harness/src/engines/table.rs", "serves_properties": ["C07", "C08", "C16"], "kind_free_text": "proptest op histories over the real KBucketsTable"},
+            {"name": "fuzz", "path": "fuzz/ (cargo-fuzz crate), harness/src/fuzzdec.rs, tools/fuzz.sh", "serves_properties": ["C05", "C06", "C07", "C08", "C09", "C10"], "kind_free_text": "libFuzzer targets that decode bytes into the same case types and call the same Property::run oracle as the proptest checks; run by the thorough tier with a fixed number of executions"},
         ],
         "checks": checks,
         "not_applicable": na,
-        "notes": "All checks are property-based tests / fuzzers (proptest via ./check -> harness/target/release/vcheck). Exit 0 held, 1 violation (VIOLATION line + replay file), 2 inconclusive. known_findings.json lists fixed/known defects.",
+        "notes": "All checks are property-based tests / fuzzers (proptest via ./check -> harness/target/release/vcheck; thorough tier of C05-C10 additionally runs libFuzzer campaigns via tools/fuzz.sh, VERIF_FUZZ_SCALE multiplies their run counts). Changes written by independent sub-agents and the checks that catch them: seeded/ and DESIGN.md 11.7. Exit 0 held, 1 violation (VIOLATION line + replay file), 2 inconclusive. known_findings.json lists fixed/known defects.",
     }
     json.dump(m, open("/verif/MANIFEST.json", "w"), indent=1)
     print("checks:", len(checks), "not_applicable:", len(na))
